@@ -8,7 +8,8 @@
 (*           command module's namespace (Find / Node / Store / Backup /    *)
 (*           Write / Exit), in the order they happened,                    *)
 (*   file    the view (identity class, key, plaintext per position) of the *)
-(*           file as reloaded after the run, <<>> when it was not written. *)
+(*           file as reloaded after the run (compared when filecheck: the  *)
+(*           file was rewritten and loads).                                *)
 (* The run is accepted iff folding RStep - the SAME function MC_YRotate    *)
 (* model-checks - over the events never rejects, ends in Done, every       *)
 (* clause of the property holds in every state on the way, and the         *)
@@ -33,7 +34,7 @@ Verdict(r) ==
       s == res.s
       why == IF res.why # "" THEN res.why
              ELSE IF s.pc # "Done" THEN "incomplete"
-             ELSE IF s.written /\ r.file # View(s.heap, s.bind) THEN "file"
+             ELSE IF r.filecheck /\ r.file # View(s.heap, s.bind) THEN "file"
              ELSE ""
   IN [id |-> r.id, ok |-> (why = ""), why |-> why, at |-> res.at, pc |-> s.pc, status |-> s.status,
       expect |-> IF why = "reject" \/ why = "incomplete" THEN Expect(s) ELSE {},
